@@ -238,3 +238,243 @@ Fixpoint writes_of (t : list op) : list data :=
   | _ :: t' => writes_of t'
   | [] => []
   end.
+
+(** ** Round 5 (I): the scanner buffer as a resource; overlapping downloads
+
+    rulelist.Parser.Parse scans the reader through a buffer it is handed
+    ([bufio.Scanner.Buffer(buf, ...)]); updateIntl takes that buffer from
+    DNSFilter.bufPool ([Get]) and gives it back with a DEFERRED [Put], that is
+    after Parse has returned.  Several downloads may run at the same time
+    (periodic refresh, add_url and set_url call DNSFilter.update without a
+    common lock), all drawing from the one pool.
+
+    The parser stage of the section above is made concrete here in so far as
+    the buffer is concerned: the stage's state is the parser's own state [PS]
+    (private to the download) plus the bytes the scanner has read but not yet
+    consumed (the unterminated end of the last chunk), and THOSE live in the
+    pool's buffer.  A buffer is a cell of shared memory; the window of the
+    backing array that a scanner uses is represented by its contents.  Lines
+    are split at [nl]; the per-line processing stays abstract ([pl]: reject,
+    or the next state and the writes requested for the line).  Not modelled:
+    the scanner dropping a CR before the terminator, its growing a private
+    buffer for a line that does not fit (then the pooled one is no longer in
+    use), the 64 KiB token limit (C15's). *)
+
+Definition nl : N := 10.
+
+(** [split_nl cur d]: the complete lines of [cur ++ d] (without their
+    terminators) and the unterminated rest. *)
+Fixpoint split_nl (cur d : data) : list data * data :=
+  match d with
+  | [] => ([], cur)
+  | x :: d' =>
+      if x =? nl then let (ls, r) := split_nl [] d' in (cur :: ls, r)
+      else split_nl (cur ++ [x]) d'
+  end.
+
+Section Buffered.
+  Variable PS : Type.
+  Variable ps0 : PS.
+  (** processLine: [None] = the line is rejected (HTML, binary character) *)
+  Variable pl : PS -> data -> option (PS * list data).
+
+  Fixpoint lines_fold (ps : PS) (ls : list data) : option (PS * list data) :=
+    match ls with
+    | [] => Some (ps, [])
+    | l :: r =>
+        match pl ps l with
+        | Some (ps1, w1) =>
+            match lines_fold ps1 r with
+            | Some (ps2, w2) => Some (ps2, w1 ++ w2)
+            | None => None
+            end
+        | None => None
+        end
+    end.
+
+  (** The stage of [pump] with the buffer contents explicit. *)
+  Definition bst := (PS * data)%type.
+
+  Definition buf_feed (st : bst) (d : data) : option (bst * list data) :=
+    let (ls, rest) := split_nl (snd st) d in
+    match lines_fold (fst st) ls with
+    | Some (ps', ws) => Some ((ps', rest), ws)
+    | None => None
+    end.
+
+  (** end of input: a non-empty unterminated rest is the last line *)
+  Definition buf_finish (st : bst) : option (list data) :=
+    match snd st with
+    | [] => Some []
+    | l => match pl (fst st) l with Some (_, ws) => Some ws | None => None end
+    end.
+
+  (** *** The pool and the downloads drawing from it *)
+
+  Inductive sphase := SNew | SCopy | SEnded (ok : bool).
+
+  (** One download: what it has still to read, its parser state, the buffer
+      it scans through, the writes it has requested so far. *)
+  Record saver := { sv_phase : sphase; sv_in : reader; sv_ps : PS; sv_buf : N; sv_ws : list data }.
+
+  (** [po_cells]: the contents of every buffer ever allocated; [po_free]: the
+      pool (sync.Pool on one P: last in, first out); [po_next]: the next
+      buffer [New] makes. *)
+  Record pool := { po_cells : amap data; po_free : list N; po_next : N; po_savers : amap saver }.
+
+  Definition cell (w : pool) (b : N) : data :=
+    match aget (po_cells w) b with Some c => c | None => [] end.
+
+  Definition new_saver (r : reader) : saver :=
+    {| sv_phase := SNew; sv_in := r; sv_ps := ps0; sv_buf := 0; sv_ws := [] |}.
+
+  Definition pinit (inputs : amap reader) : pool :=
+    {| po_cells := []; po_free := []; po_next := 0;
+       po_savers := map (fun ir => (fst ir, new_saver (snd ir))) inputs |}.
+
+  (** The download is over: with the code's DEFERRED Put the buffer goes back
+      to the pool now; with the early Put ([early = true], the refuted
+      variant) it went back before the first read. *)
+  Definition end_saver (early : bool) (w : pool) (i : N) (sv : saver) (ok : bool) (ws : list data) : pool :=
+    {| po_cells := po_cells w;
+       po_free := if early then po_free w else sv_buf sv :: po_free w;
+       po_next := po_next w;
+       po_savers := aset (po_savers w) i
+                      {| sv_phase := SEnded ok; sv_in := []; sv_ps := sv_ps sv; sv_buf := sv_buf sv; sv_ws := ws |} |}.
+
+  (** One step of download [i]: [SNew]: bufPool.Get (a new scanner's window is
+      empty, whatever the buffer held); [SCopy]: one Read result is consumed
+      (chunk: scanned together with what the buffer holds, the complete lines
+      processed, the rest left in the buffer; EOF: the rest is the last line;
+      error / rejected line: the download fails). *)
+  Definition pstep (early : bool) (w : pool) (i : N) : pool :=
+    match aget (po_savers w) i with
+    | None => w
+    | Some sv =>
+        match sv_phase sv with
+        | SNew =>
+            let '(b, fr, nx) := match po_free w with
+                                | b :: f => (b, f, po_next w)
+                                | [] => (po_next w, [], po_next w + 1)
+                                end in
+            {| po_cells := aset (po_cells w) b [];
+               po_free := if early then b :: fr else fr;
+               po_next := nx;
+               po_savers := aset (po_savers w) i
+                              {| sv_phase := SCopy; sv_in := sv_in sv; sv_ps := sv_ps sv; sv_buf := b; sv_ws := sv_ws sv |} |}
+        | SCopy =>
+            let b := sv_buf sv in
+            match sv_in sv with
+            | RData d :: r' =>
+                match buf_feed (sv_ps sv, cell w b) d with
+                | Some ((ps', rest), ws) =>
+                    {| po_cells := aset (po_cells w) b rest;
+                       po_free := po_free w;
+                       po_next := po_next w;
+                       po_savers := aset (po_savers w) i
+                                      {| sv_phase := SCopy; sv_in := r'; sv_ps := ps'; sv_buf := b; sv_ws := sv_ws sv ++ ws |} |}
+                | None => end_saver early w i sv false (sv_ws sv)
+                end
+            | RErr :: _ => end_saver early w i sv false (sv_ws sv)
+            | _ =>
+                match buf_finish (sv_ps sv, cell w b) with
+                | Some ws => end_saver early w i sv true (sv_ws sv ++ ws)
+                | None => end_saver early w i sv false (sv_ws sv)
+                end
+            end
+        | SEnded _ => w
+        end
+    end.
+
+  (** A schedule names, step by step, the download that moves. *)
+  Definition prun (early : bool) (w : pool) (sched : list N) : pool := fold_left (pstep early) sched w.
+
+  (** What download [i] requested to be written and whether it read its input
+      to the end; [None]: not finished. *)
+  Definition saver_result (w : pool) (i : N) : option (list data * bool) :=
+    match aget (po_savers w) i with
+    | Some sv => match sv_phase sv with SEnded ok => Some (sv_ws sv, ok) | _ => None end
+    | None => None
+    end.
+End Buffered.
+
+(** ** Round 5 (J): what filterSetProperties (set_url) does with the list file
+
+    Only what decides the file: the entry's URL (a number), its enabled flag
+    and the checksum in memory.  Mirrored from the code as it is: a URL that
+    another list has is refused before anything changes; a URL change
+    unloads (checksum 0); a download is made iff the list is enabled
+    afterwards and the URL or the flag changed; [err == nil && !updated]
+    ("the new contents have no rules", fix 9598232) removes the stored file
+    (ENOENT tolerated, another error of the removal is reported); a list
+    disabled afterwards is unloaded, its file stays; on any error the entry is
+    rolled back.  [guard = false] is the refuted variant in which the removal
+    is guarded by [!updated] alone. *)
+Section SetUrl.
+  Variable St : Type.
+  Variable st0 : St.
+  Variable feed : St -> data -> option (St * list data).
+  Variable finish : St -> option (list data).
+  Variable sum : data -> N.
+
+  Record entry := { e_url : N; e_enabled : bool; e_sum : N }.
+  Record request := { q_url : N; q_enabled : bool }.
+  Inductive set_res := SetErr | SetOk (restart : bool).
+
+  Definition dst_present (s : fs) (dst : path) : bool :=
+    match aget (dir_cur s) dst with Some _ => true | None => false end.
+
+  (** os.Remove(dst): no operation when there is no file (ENOENT) or when the
+      removal fails for another reason ([rm_fails]). *)
+  Definition remove_ops (s : fs) (dst : path) (rm_fails : bool) : list op * bool :=
+    if dst_present s dst then (if rm_fails then ([], false) else ([Unlink dst], true))
+    else ([], true).
+
+  Definition set_props (guard : bool) (s : fs) (e : entry) (url_taken : bool) (q : request)
+             (fd : N) (tmp dst : path) (src_ok : bool) (r : reader) (p : plan) (rm_fails : bool)
+    : list op * set_res * entry :=
+    let url_changes := negb (e_url e =? q_url q) in
+    if url_changes && url_taken then ([], SetErr, e)
+    else
+      let sum1 := if url_changes then 0 else e_sum e in
+      let restart1 := url_changes || negb (bool_eqb (e_enabled e) (q_enabled q)) in
+      if q_enabled q then
+        if restart1 then
+          let (ops, o) := update_list St st0 feed finish sum fd tmp dst src_ok r sum1 p in
+          match o with
+          | Replaced =>
+              (ops, SetOk true,
+               {| e_url := q_url q; e_enabled := true; e_sum := sum (concat (fst (pump St feed finish st0 r))) |})
+          | Skipped =>
+              let (rm, rm_ok) := remove_ops s dst rm_fails in
+              if rm_ok then (ops ++ rm, SetOk true, {| e_url := q_url q; e_enabled := true; e_sum := sum1 |})
+              else (ops ++ rm, SetErr, e)
+          | Failed _ =>
+              if guard then (ops, SetErr, e)
+              else let (rm, _) := remove_ops s dst rm_fails in (ops ++ rm, SetErr, e)
+          end
+        else ([], SetOk false, {| e_url := q_url q; e_enabled := true; e_sum := sum1 |})
+      else ([], SetOk restart1, {| e_url := q_url q; e_enabled := false; e_sum := 0 |}).
+End SetUrl.
+
+(** For the evaluator: a line processor for the fragment of rule-list syntax
+    the C14 list scenarios generate (no white space except the terminator, no
+    title handling: a title line is a comment): empty lines and lines starting
+    with '!' or '#' are dropped; a byte below 32 other than TAB, or 127,
+    rejects; a line starting with '<' before the first rule rejects (the HTML
+    pages served all start with "<!DOCTYPE html>" or "<html>"); every other
+    line is written with its terminator.  State: whether a rule was written. *)
+Definition simple_pl (written : bool) (l : data) : option (bool * list data) :=
+  match l with
+  | [] => Some (written, [])
+  | c :: _ =>
+      if (c =? 33) || (c =? 35) then Some (written, [])
+      else if negb written && (c =? 60) then None
+      else if existsb (fun b => ((b <? 32) && negb (b =? 9)) || (b =? 127)) l then None
+      else Some (true, [l ++ [nl]])
+  end.
+
+(** An injective "checksum" for the evaluator (the code's is CRC-32: equal
+    for equal contents; distinct generated contents are assumed not to
+    collide). *)
+Definition big_sum (d : data) : N := fold_left (fun a x => a * 257 + x + 1) d 0.
